@@ -8,6 +8,7 @@ import (
 	"io"
 	"log/slog"
 	"os"
+	"sort"
 	"strconv"
 	"strings"
 	"unicode"
@@ -18,7 +19,7 @@ import (
 )
 
 const header = `From Shovel Require Import Base.Outcome Model.Config Model.Sql Corr.RunC15.
-From Coq Require Import List NArith. Import ListNotations. Open Scope N_scope.`
+From Coq Require Import List NArith String. Import ListNotations. Open Scope N_scope.`
 
 // must list the same code points as Corr/RunC15.v: metachars
 var metachars = []rune{0, 9, 10, 11, 12, 13, 32, 33, 34, 35, 36, 37, 38, 39, 40, 41, 42, 43, 44, 46, 47, 58, 59, 60, 61, 62, 63, 64,
@@ -61,7 +62,7 @@ func classCase() lib.Case {
 func hashStr(s string) string {
 	h := uint64(1469598103934665603)
 	for _, r := range s {
-		h = h*1000003 + uint64(r) + 1
+		h = h*33 + uint64(r) + 1
 	}
 	return strconv.FormatUint(h, 10)
 }
@@ -136,7 +137,19 @@ func finish(d desc, coqHead string, o cfg.Obs, marker *cfg.Marker, extra ...stri
 	}
 	c.Desc = d
 	c.Kind = d.Stream + "/" + d.Class
-	c.Nontrivial = !o.Accepted || spliced
+	// the rule is evaluated on the texts of the Go-level Conn (file path: the wire log of a
+	// load that fails half-way depends on map order and must not decide the count)
+	nt := !o.Accepted
+	if marker != nil {
+		det := append(append([]string{}, o.Static...), o.Dynamic...)
+		if strings.HasPrefix(d.Stream, "dash") {
+			det = append(det, extra...)
+		}
+		if _, found := findIn(det, marker.S); found {
+			nt = true
+		}
+	}
+	c.Nontrivial = nt
 	acc := "false"
 	if o.Accepted {
 		acc = "true"
@@ -158,7 +171,17 @@ func fileCase(d desc, doc string, marker *cfg.Marker) lib.Case {
 		for _, s := range w.Cursor {
 			cur = append(cur, strings.TrimSpace(strings.TrimSuffix(strings.Join(strings.Fields(s), " "), ";")))
 		}
-		c.Coq += " " + coqTexts(w.AppNames) + " " + coqTexts(cur)
+		apps := w.AppNames
+		if !cfg.Loadable(conf.Sources, conf.Integrations) {
+			// loadTasks fails half-way: which tasks were built before depends on map order;
+			// the statements are searched for the markers but not handed to the model
+			apps = nil
+		}
+		// task order follows a Go map: hand the multisets over in sorted order
+		apps = append([]string{}, apps...)
+		sort.Strings(apps)
+		sort.Strings(cur)
+		c.Coq += " " + coqTexts(apps) + " " + coqTexts(cur)
 	}
 	if w.Err != "" {
 		c.OracleOK = false
@@ -286,7 +309,7 @@ func identifierLike(path string) bool {
 
 func run(c lib.Cfg) error {
 	slog.SetDefault(slog.New(slog.NewTextHandler(io.Discard, nil)))
-	out := lib.NewOut("C15", c.Out, header, "run", 120)
+	out := lib.NewOut("C15", c.Out, header, "run", 160)
 	out.Rule = "the configuration decoded and was either rejected by validation or the planted marker occurs in at least one SQL text"
 	if c.Replay != "" {
 		env, err := cfg.NewDashEnv()
@@ -334,7 +357,17 @@ func run(c lib.Cfg) error {
 	var k int
 	idxPos := false // the position is a table.index entry: every marker, also in the quick tier
 	pick := func() []int {
-		if c.Thorough() || idxPos {
+		if !c.Thorough() && idxPos {
+			// quick tier, index entry: the three usual markers and every index-entry marker
+			safe := []int{4, 5, 7, 17}
+			k++
+			ms := []int{k % 4, safe[k%len(safe)], rng.Intn(cfg.FirstIdxMarker)}
+			for i := cfg.FirstIdxMarker; i < len(cfg.Markers); i++ {
+				ms = append(ms, i)
+			}
+			return ms
+		}
+		if c.Thorough() {
 			var ms []int
 			for i, m := range cfg.Markers {
 				// ` desc` and `desc` also occur in constant statements (`order by num desc`):
